@@ -38,6 +38,9 @@ type Op struct {
 	Content string `json:"content,omitempty"`
 	// sleep (milliseconds)
 	Ms int `json:"ms,omitempty"`
+	// waitfor: the kind of journal record to wait for (recorded since the
+	// previous op started), e.g. "enter:shutdown"
+	Kind string `json:"kind,omitempty"`
 }
 
 // Script is a whole history description.
@@ -333,9 +336,23 @@ func (env *environment) run() {
 	ctxFor := func() (context.Context, context.CancelFunc) {
 		return context.WithTimeout(context.Background(), 8*time.Second)
 	}
+	prevMark, curMark := 0, 0
 	for _, op := range env.script.Ops {
 		op := op
+		prevMark, curMark = curMark, env.j.length()
 		switch op.K {
+		case "waitfor":
+			from := prevMark
+			if !env.waitFor(3*time.Second, func() bool {
+				for i := from; i < len(env.j.events); i++ {
+					if env.j.events[i].Kind == op.Kind {
+						return true
+					}
+				}
+				return false
+			}) {
+				env.tags["waitfor-timeout"] = true
+			}
 		case "create":
 			env.manual = op.Watch == "manual"
 			env.mode = op.Mode
@@ -381,11 +398,28 @@ func (env *environment) run() {
 			if op.Wait {
 				name = "(CFlush true)"
 			}
+			quick := ""
 			env.command(name, op.Bg, func() error {
 				ctx, cancel := ctxFor()
 				defer cancel()
-				return env.manager.Flush(ctx, env.sel, "", !op.Wait)
+				err := env.manager.Flush(ctx, env.sel, "", !op.Wait)
+				if err == nil && op.Wait && !op.Bg {
+					// the identity of the archive file at the moment the waiting
+					// flush returned (one lstat, before anything else)
+					if st, ok := fileStamp(filepath.Join(env.dir, "data", "archives", env.session)); ok {
+						quick = st
+					}
+				}
+				return err
 			})
+			if quick != "" {
+				n, ok := env.stamps[quick]
+				if !ok {
+					n = len(env.stamps) + 1
+					env.stamps[quick] = n
+				}
+				env.j.add("obs:archive:quick", fmt.Sprintf("ObA false None %d", n), fmt.Sprintf("obs   archive stamp %d at flush return", n))
+			}
 		case "reset":
 			env.command("CReset", op.Bg, func() error {
 				ctx, cancel := ctxFor()
@@ -448,7 +482,7 @@ func (env *environment) run() {
 			panic("unknown op " + op.K)
 		}
 		switch op.K {
-		case "create", "restart", "sleep":
+		case "create", "restart", "sleep", "waitfor":
 		default:
 			if !op.Bg {
 				env.observe()
